@@ -859,10 +859,13 @@ def replay(ctx, obj):
     q = probe_quirks(ctx)
     ctx._q = q
     n0 = len(ctx.monitor_failures)
+    seen = set()
     for f in obj.get("failures", []):
         c = f["case"]
         base = {k: v for k, v in c.items() if k not in ("job", "step", "where")}
-        if base.get("kind") in RUNNERS:
+        sig = json.dumps(base, sort_keys=True)
+        if base.get("kind") in RUNNERS and sig not in seen:
+            seen.add(sig)
             print("replaying", json.dumps(base)[:400])
             run_cases(ctx, [base], q, with_model=False)
     for m in ctx.monitor_failures[n0:]:
